@@ -279,7 +279,8 @@ def r20_3(run):
         # ... and as read: the delay is (expiry - now) to the microsecond; a rounded "now" (replace(microsecond=0), a truncation to
         # seconds) arms every timer late by the fraction cut off, so the name outlives its expiry
         if calls:
-            exact = any(v is c for c in calls)
+            exact = any(v is c for c in calls) or (isinstance(v, ast.Call) and callee_attr(v) in ('replace', 'astimezone') and receiver(v) in calls and
+                                                    all(k_.arg == 'tzinfo' for k_ in v.keywords) and (callee_attr(v) == 'astimezone' or not v.args))
             run.ob('R20.3', up, v, 'the current time is used as read (not rounded)', exact, slot='now-exact',
                    message='Addr.update takes "now" as %s: timers are armed for (expiry - rounded now), i.e. up to a second late' % src(v)[:60])
         for c in calls:
